@@ -425,12 +425,8 @@ def display_result(r, out, brackets_for_frac=False, newline=True, unit_format_fn
     elif isinstance(r, float):
         print(precisionify_float(r), file=out, **newline_args)
     elif isinstance(r, Array):
-        print("{", file=out, end="")
-        for i, e in enumerate(r.contents):
-            print(stringify_result(e), file=out, end="")
-            if i < len(r)-1:
-                print(", ", file=out, end="")
-        print("}", file=out, **newline_args)
+        # Written in one go, so that a failure leaves nothing on the output.
+        print(stringify_result(r), file=out, **newline_args)
     elif isinstance(r, Interval):
         # Bounds are shown like array elements (floats at the configured precision).
         print(stringify_result(r), file=out, **newline_args)
